@@ -295,6 +295,14 @@ func init() {
 		"math/rand.Uint32": func(ex *Exec, fn *ssa.Function, a []Value, fr *Frame) Value { return ex.freshVar("rand.Uint32", 32) },
 		"strconv.Atoi":      intrAtoi,
 		"strconv.Itoa":      intrItoa,
+		// ParseInt(s, 10, 0|64): the same value and nil-ness of the error as Atoi (int is 64 bits here)
+		"strconv.ParseInt": func(ex *Exec, fn *ssa.Function, a []Value, fr *Frame) Value {
+			base, bits := a[1].(*Term), a[2].(*Term)
+			if !base.IsConst() || !bits.IsConst() || base.SInt() != 10 || (bits.SInt() != 0 && bits.SInt() != 64) {
+				panic(unsupported("strconv.ParseInt with a base other than 10 or a bit size other than 0/64"))
+			}
+			return intrAtoi(ex, fn, a[:1], fr)
+		},
 		"strconv.FormatInt": func(ex *Exec, fn *ssa.Function, a []Value, fr *Frame) Value {
 			base := a[1].(*Term)
 			if !base.IsConst() {
@@ -332,6 +340,70 @@ func init() {
 		},
 		"encoding/binary.Read":  intrBinaryRead,
 		"(*bytes.Buffer).Read": intrBufferRead,
+		"(*bytes.Buffer).WriteString": func(ex *Exec, fn *ssa.Function, a []Value, fr *Frame) Value {
+			o, buf, _ := ex.bufParts(a[0])
+			o.Val.(StructV)[0] = ex.appendOp(buf, a[1]).(*SliceV)
+			return TupleV{a[1].(*StringV).Len, &IfaceV{}}
+		},
+		"(*bytes.Buffer).WriteByte": func(ex *Exec, fn *ssa.Function, a []Value, fr *Frame) Value {
+			o, buf, _ := ex.bufParts(a[0])
+			one := ex.sliceFromTerms([]*Term{a[1].(*Term)}, types.Typ[types.Uint8])
+			o.Val.(StructV)[0] = ex.appendOp(buf, one).(*SliceV)
+			return &IfaceV{}
+		},
+		"(*bytes.Buffer).Grow": func(ex *Exec, fn *ssa.Function, a []Value, fr *Frame) Value {
+			// capacity only: make room so that later writes do not reallocate (len unchanged)
+			o, buf, _ := ex.bufParts(a[0])
+			n := ex.concInt(a[1].(*Term), "bytes.Buffer.Grow")
+			if n < 0 {
+				ex.goPanicf("bytes.Buffer.Grow: negative count")
+			}
+			ln := 0
+			if buf.Arr != nil {
+				ln = ex.concInt(buf.Len, "buffer length")
+			}
+			cp := 0
+			if buf.Arr != nil {
+				cp = ex.concInt(buf.Cap, "buffer capacity")
+			}
+			if ln+n > cp {
+				narr := make(ArrayV, ln+n)
+				if ln > 0 {
+					off := ex.concInt(buf.Off, "buffer offset")
+					copy(narr, buf.Arr.Val.(ArrayV)[off:off+ln])
+				}
+				for i := ln; i < ln+n; i++ {
+					narr[i] = ex.tb.BV(8, 0)
+				}
+				no := ex.newObject(nil, narr, "bytes.Buffer.Grow")
+				o.Val.(StructV)[0] = &SliceV{Arr: no, Off: ex.i64(0), Len: ex.i64(int64(ln)), Cap: ex.i64(int64(ln + n)), Elem: types.Typ[types.Uint8]}
+			}
+			return nil
+		},
+		"(*bytes.Buffer).String": func(ex *Exec, fn *ssa.Function, a []Value, fr *Frame) Value {
+			b := intrBufferBytes(ex, fn, a, fr).(*SliceV)
+			if b.Arr == nil {
+				return ex.constStr("")
+			}
+			cp := ex.sliceFromTerms(ex.sliceTerms(b), types.Typ[types.Uint8])
+			return &StringV{Arr: cp.Arr, Off: cp.Off, Len: cp.Len}
+		},
+		"strings.IndexByte": func(ex *Exec, fn *ssa.Function, a []Value, fr *Frame) Value {
+			x, ok := ex.goString(a[0].(*StringV))
+			c := a[1].(*Term)
+			if !ok || !c.IsConst() {
+				panic(unsupported("strings.IndexByte on symbolic input"))
+			}
+			return ex.i64(int64(strings.IndexByte(x, byte(c.Val))))
+		},
+		"strings.ContainsRune": func(ex *Exec, fn *ssa.Function, a []Value, fr *Frame) Value {
+			x, ok := ex.goString(a[0].(*StringV))
+			c := a[1].(*Term)
+			if !ok || !c.IsConst() {
+				panic(unsupported("strings.ContainsRune on symbolic input"))
+			}
+			return ex.tb.Bool(strings.ContainsRune(x, rune(c.Val)))
+		},
 		"io.ReadFull":          intrIOReadFull,
 		"(*bytes.Buffer).Reset": func(ex *Exec, fn *ssa.Function, a []Value, fr *Frame) Value {
 			// b.buf = b.buf[:0]; b.off = 0   (the backing array is kept: later writes reuse it)
